@@ -244,3 +244,29 @@ PROPS["C08"] = dict(
     assumptions=EXEC_ASSUME,
     design_ref="DESIGN.md section 5 C08",
 )
+
+SDL_ASSUME = ["generated schemas are well-formed by construction against the rule catalogue quoted from the property",
+              "globals Sort=true, Relaxed=false are set at the start of every load"]
+
+PROPS["C13"] = dict(
+    pkg="sdl", test="TestC13", engine="sdl", own_loop=True,
+    quick=dict(checks=240, shards=3), thorough=dict(checks=24000, shards=16), timeout=dict(quick=600, thorough=3000),
+    nt_floor=dict(quick=3000, thorough=200000),
+    must_classes=["well-formed", "fuzzed-text-accepted(rechecked)"] + ["rule=R%d" % i for i in range(1, 9)],
+    level="exploration",
+    technique="generated well-formed schemas + exhaustive catalogue of single-rule mutations per schema (accept/reject oracle naming the offender) + independent re-checker of the rule catalogue over every accepted schema (also mutants and byte-mutated SDL)",
+    rule="rapid draws a well-formed schema model (objects, interfaces with conforming implementers incl. covariant narrowing and extra optional"
+         " arguments, unions, enums, input objects, custom scalars, directive definitions with arguments/defaults, directive uses at declared"
+         " locations with coercible arguments, explicit/implicit schema block, descriptions, defaults, wrappers up to depth 3). (a) it must"
+         " load; (b) each of the 52 catalogue mutations that applies (R1 undefined references, R2 duplicate/reserved/ill-formed names, R3"
+         " input/output positions also under [[..!]] wrappers, R4 interface conformance, R5 unions, R6 empty composites, R7 directive uses,"
+         " R8 directive cycles) is applied to a copy at a drawn site and must be refused with an error containing the offender's name;"
+         " (c) every accepted text - the schema, accepted mutants, and 3 byte/token-mutated variants per case - is re-walked through the"
+         " public API by an independent re-checker of R1-R8. evaluations counts loads. Non-trivial = >=3 kinds (well-formed) / a nested,"
+         " member-level or directive-level violation (mutants) / an accepted fuzzed text.",
+    level_text="Mutation kinds are enumerated exhaustively per generated schema, sites and schemas are sampled; the converse direction is checked by re-validation, not proof.",
+    level_note="Trusted: the generator's notion of well-formed, the catalogue's expected offender names, recheck.go. Uses of directives on the"
+               " arguments of directive definitions are excluded from the location re-check (ggql validates them against INPUT_FIELD_DEFINITION, pinned by TestLocate).",
+    assumptions=SDL_ASSUME,
+    design_ref="DESIGN.md section 5 C13",
+)
